@@ -95,6 +95,24 @@ type Scenario struct {
 	MaxEvents   int
 	Strategy    Strategy
 	PowerDesc   string
+	// BLS: run this world with go-f3's production BLS code (blssig) instead of the stand-in scheme.
+	BLS bool
+}
+
+// Sig returns the signature scheme of the scenario.
+func (sc *Scenario) Sig() vsig.Scheme {
+	if sc.BLS {
+		return vsig.BLS()
+	}
+	return vsig.StandIn{}
+}
+
+// UseBLS switches the scenario to production BLS and re-keys its members from the harness's key pool.
+func (sc *Scenario) UseBLS() {
+	sc.BLS = true
+	for i := range sc.Members {
+		sc.Members[i].Key = vsig.BLS().PubKey(0, uint64(i))
+	}
 }
 
 type evKind int
@@ -178,7 +196,7 @@ type host struct {
 	i        int
 	m        Member
 	p        *gpbft.Participant
-	signer   *vsig.Signer
+	signer   gpbft.Signer
 	alarmGen uint64
 	alarmSet bool
 	sent     map[sentKey]*gpbft.GMessage
@@ -223,7 +241,7 @@ func NewWorld(sc *Scenario, mon *Monitor) (*World, error) {
 		if m.Kind == Byz || m.Kind == Silent {
 			continue
 		}
-		h := &host{w: w, i: i, m: m, signer: vsig.NewSigner(m.Key), sent: map[sentKey]*gpbft.GMessage{},
+		h := &host{w: w, i: i, m: m, signer: sc.Sig().NewSigner(m.Key), sent: map[sentKey]*gpbft.GMessage{},
 			decided: map[uint64]*gpbft.Justification{}, started: map[uint64]bool{}}
 		o := sc.Opts
 		p, err := gpbft.NewParticipant(h,
@@ -267,7 +285,7 @@ func (w *World) makeTable(k int) (*Table, error) {
 	if err != nil {
 		return nil, err
 	}
-	agg, err := vsig.Backend{}.Aggregate(pt.Entries.PublicKeys())
+	agg, err := w.Sc.Sig().Aggregate(pt.Entries.PublicKeys())
 	if err != nil {
 		return nil, err
 	}
@@ -465,10 +483,10 @@ func (h *host) SetAlarm(at time.Time) {
 }
 
 func (h *host) Verify(pk gpbft.PubKey, msg, sig []byte) error {
-	return vsig.Backend{}.Verify(pk, msg, sig)
+	return h.w.Sc.Sig().Verify(pk, msg, sig)
 }
 func (h *host) Aggregate(keys []gpbft.PubKey) (gpbft.Aggregate, error) {
-	return vsig.Backend{}.Aggregate(keys)
+	return h.w.Sc.Sig().Aggregate(keys)
 }
 
 func (h *host) ReceiveDecision(_ context.Context, d *gpbft.Justification) (time.Time, error) {
